@@ -120,6 +120,19 @@ def main(argv):
         res = {"violations": [{"signature": "harness-crash", "what": traceback.format_exc()[-800:], "replay": {"crash": traceback.format_exc()}}],
                "cases": 0, "nontrivial": 0, "samples": [], "distribution": {}, "rule": "harness crashed"}
 
+    known_sigs0 = {k["signature"] for k in common.load_known_findings() if k["property"] == prop and k["status"] == "known"}
+    if broken_obl and tier == "quick" and not [v for v in res.get("violations", []) if v["signature"] not in known_sigs0]:
+        # an obligation is broken but the quick run found no failing input: SEARCH (same generators, 4x volume, other seed)
+        ctx2 = dict(ctx, seed=seed + 7919, scale=4, searching=True)
+        try:
+            res2 = mod.run(ctx2)
+            res2["cases"] = res2.get("cases", 0) + res.get("cases", 0)
+            res2["nontrivial"] = res2.get("nontrivial", 0) + res.get("nontrivial", 0)
+            res2["samples"] = res.get("samples", []) + res2.get("samples", [])
+            res = res2
+        except Exception:
+            traceback.print_exc()
+
     known = [k for k in common.load_known_findings() if k["property"] == prop and k["status"] == "known"]
     known_sigs = {k["signature"]: k for k in known}
     reported, suppressed = [], {}
